@@ -70,6 +70,11 @@ def action (rest : List String) : Option (M String) :=
   | ["inst", i, k] => some (do
       modify fun w => { w with instRunning := w.instRunning.set i.toNat! (k == "2"), instChecked := w.instChecked.set i.toNat! (k == "1") }
       return "")
+  | ["force", p, i, st, et] => some (do
+      -- a forced state received for the process (`force_state`: dismissed when newer information from the target has arrived)
+      let x ← proc p.toNat!
+      setProc p.toNat! (forceState x i.toNat! (pstate st) et.toNat!).1
+      return "")
   | ["remove", i, p] => some (do
       -- Context.on_process_removed_event: the entry of the instance is deleted (`remove_identifier`)
       let w ← get
